@@ -67,6 +67,15 @@ Obs == IF Mode = "judge" THEN ndJsonDeserialize(IOEnv.OBS) ELSE <<>>
 Got(o) == {[id |-> o.addonFindings[i].id, line |-> o.addonFindings[i].line, col |-> o.addonFindings[i].col,
             sev |-> o.addonFindings[i].sev, msg |-> o.addonFindings[i].msg] : i \in DOMAIN o.addonFindings}
 
+\* a finding given in the "loc" form has two locations; the note of its primary location is "he<TAB>re<TAB><i>": it must be
+\* shown (--template-location) exactly as given, whatever executor relayed the finding
+NoteCodes(i) == <<104, 101, 9, 114, 101, 9, 48 + i>>
+LocNotesOK(o) ==
+  LET c == o.case IN
+    \A i \in DOMAIN c.lines :
+       (c.lines[i].k = "loc" /\ FKey(i, c.lines[i]) \in Relayed(c)) =>
+          \E n \in DOMAIN o.locNotes : o.locNotes[n].line = 10 + i /\ o.locNotes[n].col = 3 /\ o.locNotes[n].codes = NoteCodes(i)
+
 Reasons(o) ==
   (IF o.signal THEN <<"crash">> ELSE <<>>)
   \o (IF o.signal \/ Got(o) = Relayed(o.case) THEN <<>> ELSE <<"relayed-findings-differ">>)
@@ -74,6 +83,7 @@ Reasons(o) ==
   \o (IF o.signal \/ ~Failed(o.case) \/ o.internalErrors <= 1 THEN <<>> ELSE <<"more-than-one-internal-error">>)
   \o (IF o.signal \/ o.summariesForwarded = NSummaries(o.case) THEN <<>> ELSE <<"summaries-not-forwarded">>)
   \o (IF o.signal \/ o.kinds = Logged(o.case) \/ o.case.exit # 0 THEN <<>> ELSE <<"line-kinds-misclassified">>)
+  \o (IF o.signal \/ LocNotesOK(o) THEN <<>> ELSE <<"location-note-differs">>)
 
 BadIdx == {i \in DOMAIN Obs : Reasons(Obs[i]) # <<>>}
 
